@@ -4,7 +4,7 @@
    instantiated with the out-of-circuit square root the gadgets call (ark_sr). *)
 Require Import ZArith List Bool.
 From D377 Require Import Base.Certs Base.ZpField Base.FieldSec Base.Fields Model.Decaf Model.Gadgets Model.Wrapper Model.Concrete.
-From D377 Require Import Spec.Edwards Spec.DecafSpec Proofs.Instance Proofs.Final Proofs.GadgetProofs Proofs.WrapperProofs Proofs.WrapperNative Proofs.Codec Proofs.EdwardsLaw Tie.Gadgets.
+From D377 Require Import Spec.Edwards Spec.DecafSpec Proofs.Instance Proofs.Final Proofs.GadgetProofs Proofs.WrapperProofs Proofs.WrapperNative Proofs.Codec Proofs.EdwardsLaw Proofs.Ladder Tie.Gadgets.
 From D377 Require Generated.GadgetsGen.
 Local Existing Instance FqF.
 
@@ -108,4 +108,13 @@ Proof.
   intros p q Hp Hq. rewrite ark_A_is_m1.
   destruct (@denoms_nonzero FqF fq_a ark_D m1_sq d_ns fq_two_nz p q Hp Hq) as [H1 H2].
   exact (@affinevar_add_sat' FqF fq_a ark_D p q H1 H2).
+Qed.
+
+(* the scalar-multiplication gadget (CurveVar::scalar_mul_le, the ark-r1cs-std default ladder over the AffineVar arithmetic above): for EVERY
+   little-endian bit string, of any length, the output is the k-fold sum of the input point, k the integer the bits denote — i.e. what the
+   native scalar multiplication returns (C05) *)
+Theorem C13_scalar_mul_gadget : forall P bits, on_curve fq_a ark_D P ->
+  @gscalar_mul_le FqF fq_a ark_D P bits = ed_nsmul fq_a ark_D (Ladder.le_nat bits) P.
+Proof.
+  exact (@gscalar_mul_le_correct FqF ark_D fq_two_nz d_ns m1_sq).
 Qed.
